@@ -92,7 +92,7 @@ func c01Loop(a *An, df *DecodeFacts, rule string) {
 	var send *ssa.Call
 	if okSend {
 		send = df.SendCalls[0]
-		arg := send.Call.Args[len(send.Call.Args)-1]
+		arg := ro.eventArg(send)
 		ex, isEx := stripConv(arg).(*ssa.Extract)
 		if !isEx || ex.Tuple != ssa.Value(df.HandlerCall) || ex.Index != 0 {
 			// single-result handler
@@ -289,7 +289,7 @@ func c01Header(a *An, df *DecodeFacts, size int64) (bool, string) {
 // c01Send: the event send function never drops.
 func c01Send(a *An, rule string) {
 	sendFnRule(a, rule, a.Ro.SendEvent, "Events", "event", "an event bypasses the send only when its Op is 0", func(l Lit) bool {
-		return l.A.Kind == AkCmp && l.Neg && l.A.Op == "==" && l.A.K == "c:0" && strings.HasSuffix(l.A.Subj, ".Op")
+		return l.A.Kind == AkCmp && l.Neg && l.A.Op == "==" && l.A.K == "c:0" && isOpSubj(l.A)
 	})
 }
 
@@ -638,7 +638,7 @@ func c01Overflow(a *An, df *DecodeFacts, rule string) {
 		if v == nil {
 			continue
 		}
-		org := origins(v.Ctx, call.Call.Args[len(call.Call.Args)-1], 0)
+		org := origins(v.Ctx, ro.errorArg(call), 0)
 		for _, o := range org {
 			if o == ro.ErrOverflow.Name() || o == "wraps:"+ro.ErrOverflow.Name() {
 				ovf = v
